@@ -533,6 +533,8 @@ type EncodeOptions struct {
 type AnimEncoder struct {
 	w      io.Writer
 	muxer  *mux.Muxer
+	// hasICC, hasEXIF, hasXMP record which metadata blobs are set on the muxer.
+	hasICC, hasEXIF, hasXMP bool
 	width  int
 	height int
 	opts   EncodeOptions
@@ -1200,16 +1202,19 @@ func (e *AnimEncoder) AddRawFrame(bitstreamData []byte, duration time.Duration, 
 // SetICCProfile sets the ICC color profile for the output file.
 func (e *AnimEncoder) SetICCProfile(data []byte) {
 	e.muxer.SetICCProfile(data)
+	e.hasICC = len(data) > 0
 }
 
 // SetEXIF sets EXIF metadata for the output file.
 func (e *AnimEncoder) SetEXIF(data []byte) {
 	e.muxer.SetEXIF(data)
+	e.hasEXIF = len(data) > 0
 }
 
 // SetXMP sets XMP metadata for the output file.
 func (e *AnimEncoder) SetXMP(data []byte) {
 	e.muxer.SetXMP(data)
+	e.hasXMP = len(data) > 0
 }
 
 // Close finalizes the animation and writes the WebP file to the writer.
@@ -1233,8 +1238,10 @@ func (e *AnimEncoder) Close() error {
 
 	// Single-frame optimization: if there is exactly 1 frame and we have
 	// the canvas image and the simple encoder, try encoding as a simple
-	// WebP and pick the smaller output.
-	if e.frameCount == 1 && e.prevCanvas != nil && SimpleEncodeFunc != nil {
+	// WebP and pick the smaller output. The simple encoding carries no
+	// metadata, so it is only an option when none was set.
+	hasMetadata := e.hasICC || e.hasEXIF || e.hasXMP
+	if e.frameCount == 1 && !hasMetadata && e.prevCanvas != nil && SimpleEncodeFunc != nil {
 		simpleData, err := SimpleEncodeFunc(e.prevCanvas, e.opts.Lossless, float32(e.opts.Quality))
 		if err == nil && len(simpleData) > 0 && len(simpleData) < len(animData) {
 			_, writeErr := e.w.Write(simpleData)
